@@ -71,7 +71,7 @@ def implAutoHints (line : String) : List String :=
 def forbidden (nums : List HostTok) : List String :=
   nums.filterMap fun h => match h.num with
     | some n => if nonRoutable n then some (str h.text) else none
-    | none => none
+    | none => if decide (AdvSpec.loopbackName h.text) then some (str h.text) else none   -- `localhost` in any case
 
 def echoTok (echo : String) : HostTok :=
   -- the fallback echo address is 198.51.100.N: numeric by construction
@@ -107,6 +107,9 @@ def step (_ : Unit) (tok : List String) (_line : String) (impl : Option String) 
     | some ht =>
       let v := match ht.num, impl with
         | some n, some i => if nonRoutable n && i == "0" then "viol:classify:non-routable address classified routable" else "ok"
+        | none, some i =>
+          if decide (AdvSpec.loopbackName ht.text) && i == "0" then
+            "viol:classify-name:a spelling of localhost (loopback) classified routable" else "ok"
         | _, _ => "ok"
       ((), bit (isPrivHost ht.text), v)
     | none => ((), "throw:invalid_argument", "ok")
